@@ -7,8 +7,8 @@ From SqfsV Require Import Base.Bytes Gen.Constants C03.Common C03.ListN C03.Meta
 From SqfsV Require C14.SuperModel C14.SuperProofs C14.TraceModel.
 From SqfsV Require Import C01.GenC01 C01.Res C01.InodeModel C01.InodeProofs C01.IdProofs.
 From SqfsV Require Import Img.TreeModel Img.SerDefs Img.SerProofs Img.Final Img.Domain Img.TreeRT.
-From SqfsV Require Import Image.FinishModel Image.ReaderModel Image.ReadLemmas Image.TableRead Image.SerX
-  Image.FinishProofs.
+From SqfsV Require Import Image.FinishModel Image.ReaderModel Image.ValidModel Image.ReadLemmas Image.TableRead Image.SerX
+  Image.FinishProofs Image.ExportInv Image.ValidLemmas.
 Import ListNotations.
 Local Open Scope N_scope.
 
@@ -164,13 +164,13 @@ Section IP.
     rewrite F0 in Fr.
     destruct (frag_write_cases compress _ _ _ _ _ _ _ _ Fr) as [(Z & _ & _ & _ & Ef)|(Z & _ & _ & Ef)].
     - rewrite Z. cbn [is_nil existsb].
-      destruct (export_write_cases compress _ _ _ _ _ _ _ _ _ _ _ Ex) as [(X1 & _ & _ & Ee)|(l & X1 & _ & _ & Ee)];
+      destruct (export_write_cases compress _ _ _ _ _ _ _ _ _ _ _ Ex) as [(X1 & _ & _ & Ee & _)|(l & X1 & _ & _ & Ee)];
         rewrite X1; cbn [is_some]; unfold xattr_write in Xa;
         destruct (c_no_xattr cfg); [|destruct (in_xattr inp) as [[xb off]|]| |destruct (in_xattr inp) as [[xb off]|]];
         injection Xa as _ _ <-; cbn [is_some]; rewrite Ee, Ef; reflexivity.
     - assert (Zn : is_nil (in_frags inp) = false) by (destruct (in_frags inp); [congruence|reflexivity]).
       rewrite Zn. cbv zeta in Ef.
-      destruct (export_write_cases compress _ _ _ _ _ _ _ _ _ _ _ Ex) as [(X1 & _ & _ & Ee)|(l & X1 & _ & _ & Ee)];
+      destruct (export_write_cases compress _ _ _ _ _ _ _ _ _ _ _ Ex) as [(X1 & _ & _ & Ee & _)|(l & X1 & _ & _ & Ee)];
         rewrite X1; cbn [is_some]; unfold xattr_write in Xa;
         destruct (c_no_xattr cfg); [|destruct (in_xattr inp) as [[xb off]|]| |destruct (in_xattr inp) as [[xb off]|]];
         injection Xa as _ _ <-; cbn [is_some]; rewrite Ee, Ef; reflexivity.
@@ -227,7 +227,7 @@ Section IP.
       + left. rewrite E0 in C. cbn [SuperModel.s_frag_count] in C. auto.
       + right. split; [exact Z|]. split; [exact A|]. rewrite C. apply N.mod_small.
         change 4294967296 with (2 ^ 32). exact Fn.
-    - destruct (export_write_cases compress _ _ _ _ _ _ _ _ _ _ _ Ex) as [(A & B & C & _)|(l & A & B & C & _)].
+    - destruct (export_write_cases compress _ _ _ _ _ _ _ _ _ _ _ Ex) as [(A & B & C & _ & _)|(l & A & B & C & _)].
       + left. rewrite E0 in C. cbn [SuperModel.s_export_start] in C. auto.
       + right. exists l, dwr. auto.
     - apply lift_ok in Id. exact Id.
@@ -623,5 +623,362 @@ Section IP.
     destruct fixed_fields as (_ & M2 & _ & M4 & _ & _ & _ & _ & _ & M10).
     unfold read_image_tree. rewrite super_roundtrip_l, ids_roundtrip_l, tables_ok, M2, M4, M10.
     unfold nlen. rewrite Nat2N.id. exact B.
+  Qed.
+
+  (* ---- the export table ---- *)
+  Lemma refs_lt c : ref_of (si_refs img) c < 2 ^ 48.
+  Proof.
+    unfold ref_of. destruct (nth_error (si_refs img) (N.to_nat (c - 1))) as [r|] eqn:E.
+    - destruct dom_facts as (R & _). destruct fit_facts as (Ft & _).
+      assert (L65536 : limit <= 65536) by lia.
+      destruct (serialize_final compress uncompress compress_ok limit t img (repr_children_before bs t R) ser_ok)
+        as (a & im & dm & FIN).
+      assert (Hj : (N.to_nat (c - 1) < length t)%nat).
+      { assert (length (si_refs img) = length t) by (unfold Final in FIN; tauto).
+        rewrite <- H. apply nth_error_Some. congruence. }
+      destruct (ReadProofs.node_run_of compress uncompress compress_ok limit L65536 bs t img R Ft a im dm _ FIN Hj)
+        as (n & tn & i & b & r' & NR).
+      assert (Q : r' < 281474976710656) by (eapply ReadProofs.ref_small; eassumption).
+      destruct NR. rewrite E in nr_r. injection nr_r as <-.
+      rewrite (nth_error_nth _ _ 0 E). exact Q.
+    - apply nth_error_None in E. rewrite nth_overflow by exact E. reflexivity.
+  Qed.
+
+  Lemma qwords_of_bytes : forall l, Forall (fun x => x < 2 ^ 64) l -> qwords_of (concat (map le64 l)) (length l) = l.
+  Proof.
+    induction l as [|x r IH]; intro F; [reflexivity|].
+    inversion F as [|? ? Hx Fr]; subst. cbn [map concat length].
+    assert (Hne : le64 x ++ concat (map le64 r) <> []) by (unfold le64; cbn [le app]; discriminate).
+    destruct (le64 x ++ concat (map le64 r)) as [|y yr] eqn:E; [congruence|].
+    cbn [qwords_of]. rewrite <- E. f_equal.
+    - unfold rd64, le64. apply rd_le. change (N.of_nat 8) with 8. change (256 ^ 8) with (2 ^ 64). exact Hx.
+    - rewrite dropN_app_exact by (unfold le64; rewrite lenN_le; reflexivity). apply IH. exact Fr.
+  Qed.
+
+  Theorem export_roundtrip_l :
+    (c_exportable cfg = false /\ w_export w = None /\ read_export uncompress (image_bytes w) sf = Some None) \/
+    (c_exportable cfg = true /\ exists l,
+       w_export w = Some l /\ read_export uncompress (image_bytes w) sf = Some (Some l) /\ lenN l = nlen t /\
+       (forall k, nth k l U64MAX = ref_of (si_refs img) (N.of_nat k + 1) \/ nth k l U64MAX = U64MAX) /\
+       (forall c, c = nlen t \/ In c (kids_upto t (length t)) ->
+                  nth (N.to_nat (c - 1)) l U64MAX = ref_of (si_refs img) c)).
+  Proof.
+    destruct shape as (dwr & f1 & f2 & _ & S & _ & Ex & _).
+    destruct dom_facts as (R & _). destruct (repr_facts bs t R) as (_ & T1 & T2 & _).
+    destruct fit_facts as (_ & Bu). pose proof order_facts as O.
+    fold t img in S, Ex. fold sf s0 in Ex.
+    destruct (c_exportable cfg) eqn:CE.
+    - right. split; [reflexivity|].
+      destruct (export_table_l compress limit t img dwr (repr_children_before bs t R) ltac:(unfold nlen in T1; lia) S)
+        as (l & X & L & _ & K1 & K2).
+      destruct (export_write_cases compress _ _ _ _ _ _ _ _ _ _ _ Ex) as [(_ & _ & _ & _ & [Q|Q])|(l' & A & B & C & _)];
+        [discriminate|congruence|].
+      rewrite X in C. injection C as <-.
+      exists l. split; [exact A|]. split; [|split; [exact L|split; assumption]].
+      destruct fixed_fields as (_ & M2 & _).
+      unfold read_export. rewrite (export_present l A), M2, split_export.
+      destruct (read_table_written compress uncompress compress_ok _ _ _ _ pre_export (w_idb w ++ tail_x) (nlen t) 8 B
+                  len_pre_export ltac:(rewrite le64_list_len, L; reflexivity) ltac:(unfold o_id in O; lia)) as (Rd & _).
+      rewrite Rd.
+      assert (Fl : Forall (fun x => x < 2 ^ 64) l).
+      { apply Forall_forall. intros x Hx. destruct (In_nth _ _ U64MAX Hx) as (k & Hk & <-).
+        destruct (K1 k) as [->| ->]; [|reflexivity]. pose proof (refs_lt (N.of_nat k + 1)).
+        assert (N.pos (2 ^ 48) < N.pos (2 ^ 64)) by reflexivity. lia. }
+      replace (N.to_nat (nlen t)) with (length l) by (clear - L; unfold lenN, nlen in *; lia).
+      rewrite (qwords_of_bytes l Fl). reflexivity.
+    - left. split; [reflexivity|].
+      unfold export_write in Ex. injection Ex as E1 _ E3 _.
+      destruct s0_facts as (E0 & _). split; [symmetry; exact E1|].
+      unfold read_export. rewrite <- E3, E0. cbn [SuperModel.s_export_start]. rewrite no_table_absent. reflexivity.
+  Qed.
+
+  (* ---- the layout clauses of the executable validator ---- *)
+  Variable devblk : N.
+  Hypothesis Hdev : devblk = c_devblk cfg.
+
+  Lemma tables_enc :
+    exists rawsI rawsD,
+      Forall (blk_ok) rawsI /\ itbl = concat (map (enc compress) rawsI) /\ rawsI <> [] /\
+      Forall (blk_ok) rawsD /\ dtbl = concat (map (enc compress) rawsD).
+  Proof.
+    destruct dom_facts as (R & _). destruct fit_facts as (Ft & _).
+    assert (L65536 : limit <= 65536) by lia.
+    destruct (serialize_final compress uncompress compress_ok limit t img (repr_children_before bs t R) ser_ok)
+      as (a & im & dm & FIN).
+    destruct (repr_facts bs t R) as (_ & T1 & _).
+    assert (Hj : (0 < length t)%nat) by (unfold nlen in T1; lia).
+    destruct (ReadProofs.node_run_of compress uncompress compress_ok limit L65536 bs t img R Ft a im dm _ FIN Hj)
+      as (n & tn & i & b & r & NR).
+    destruct NR. pose proof (ReadProofs.encode_nonempty _ _ nr_enc) as Lb.
+    destruct FIN as ([(A1 & _ & C1 & _) _] & _ & T1' & [(A2 & _ & C2 & _) _] & _ & T2' & _ & _ & _ & _ & _ & _ & CC & _).
+    exists (a_rawsI a), (a_rawsD a). fold img in T1', T2'. unfold itbl, dtbl.
+    split; [exact C1|]. split; [rewrite T1'; exact A1|]. split; [|split; [exact C2|rewrite T2'; exact A2]].
+    intro Z. rewrite Z in CC. cbn [concat] in CC.
+    destruct (a_bl a) as [|b0 br]; [discriminate|]. cbn [nth_error] in nr_b. injection nr_b as ->.
+    cbn [concat] in CC. destruct b as [|x bx]; [rewrite lenN_nil in Lb; lia|discriminate].
+  Qed.
+
+  Lemma itbl_nonempty : 2 <= lenN itbl.
+  Proof.
+    destruct tables_enc as (rawsI & rawsD & F & E & Hne & _). rewrite E.
+    destruct rawsI as [|r rs]; [congruence|]. cbn [map concat]. rewrite lenN_app.
+    pose proof (MetaProofs.enc_len compress uncompress compress_ok r (Forall_inv F)). lia.
+  Qed.
+
+  Lemma v_size_ok : v_size devblk (image_bytes w) sf = true.
+  Proof.
+    destruct layout as [_ _ _ _ _ _ _ [D P]]. unfold v_size. rewrite image_len, P, Hdev.
+    destruct (pad_len_ok (s_bytes_used sf) (c_devblk cfg) ltac:(lia)) as [A B].
+    rewrite !andb_true_iff, negb_true_iff, N.eqb_neq, N.leb_le, N.eqb_eq, N.ltb_lt. repeat split; try assumption; lia.
+  Qed.
+
+  Lemma present_lt x : x < s_bytes_used sf -> present x = true.
+  Proof.
+    intro H. destruct fit_facts as (_ & Bu). unfold present, NONE64. apply negb_true_iff, N.eqb_neq.
+    change (2 ^ 64) with 18446744073709551616 in Bu. lia.
+  Qed.
+
+  Lemma xattr_facts :
+    (w_xattrb w = [] /\ s_xattr_start sf = NO_TABLE /\ s_bytes_used sf = o_xattr w) \/
+    (o_xattr w <= s_xattr_start sf /\ s_xattr_start sf + 16 <= s_bytes_used sf).
+  Proof.
+    destruct layout as [_ _ _ _ _ [(A & B)|(off & _ & _ & B & C)] U _].
+    - left. rewrite A, lenN_nil in U. split; [exact A|]. split; [exact B|lia].
+    - right. lia.
+  Qed.
+
+  Lemma v_order_ok : v_order sf = true.
+  Proof.
+    pose proof order_facts as O. pose proof itbl_nonempty as I2. destruct fit_facts as (_ & Bu).
+    destruct layout as [Li Ld Fr Ex _ _ U _]. fold itbl in Ld.
+    assert (X : o_xattr w <= s_bytes_used sf) by lia.
+    unfold v_order.
+    rewrite (present_lt (s_inode_start sf)) by lia. rewrite (present_lt (s_dir_start sf)) by lia.
+    rewrite (present_lt (s_id_start sf)) by lia. cbn [andb].
+    assert (S0 : SUPER_SIZE - 1 <? s_inode_start sf = true) by (apply N.ltb_lt; unfold SBN in *; change sizeof_sqfs_super_t with 96 in *; unfold SUPER_SIZE; lia).
+    assert (S1 : s_inode_start sf <? s_dir_start sf = true) by (apply N.ltb_lt; lia).
+    destruct frag_span as [_ FS]. destruct export_span as [_ ES]. destruct id_span as [IS1 IS2].
+    assert (XT : ascending ([s_id_start sf] ++ opt_start (s_xattr_start sf) ++ [s_bytes_used sf]) = true).
+    { destruct xattr_facts as [(_ & B & _)|(A & B)].
+      - rewrite B. unfold opt_start. rewrite no_table_absent. cbn [app ascending]. rewrite andb_true_r. apply N.ltb_lt. lia.
+      - unfold opt_start. rewrite (present_lt (s_xattr_start sf)) by lia. cbn [app ascending].
+        rewrite andb_true_r, andb_true_iff, !N.ltb_lt. lia. }
+    cbn [app] in XT.
+    destruct Fr as [(Zf & Fb & Sf & _)|(Zf & _ & _)]; destruct Ex as [(Ze & Eb & Se)|(l & dwr & Ze & _)].
+    - rewrite Sf, Se. unfold opt_start at 1 2. rewrite no_table_absent. cbn [app ascending].
+      rewrite S0, S1. cbn [andb]. assert (Q : s_dir_start sf <? s_id_start sf = true) by (apply N.ltb_lt; lia).
+      rewrite Q. exact XT.
+    - destruct (ES l Ze) as [E1 E2]. rewrite Sf. unfold opt_start at 1 2. rewrite no_table_absent, (export_present l Ze).
+      cbn [app ascending]. rewrite S0, S1.
+      assert (Q1 : s_dir_start sf <? s_export_start sf = true) by (apply N.ltb_lt; lia).
+      assert (Q2 : s_export_start sf <? s_id_start sf = true) by (apply N.ltb_lt; lia).
+      rewrite Q1, Q2. exact XT.
+    - destruct (FS Zf) as [F1 F2]. rewrite Se. unfold opt_start at 1 2. rewrite no_table_absent, (frag_present Zf).
+      cbn [app ascending]. rewrite S0, S1.
+      assert (Q1 : s_dir_start sf <? s_frag_start sf = true) by (apply N.ltb_lt; lia).
+      assert (Q2 : s_frag_start sf <? s_id_start sf = true) by (apply N.ltb_lt; lia).
+      rewrite Q1, Q2. exact XT.
+    - destruct (FS Zf) as [F1 F2]. destruct (ES l Ze) as [E1 E2].
+      unfold opt_start at 1 2. rewrite (frag_present Zf), (export_present l Ze).
+      cbn [app ascending]. rewrite S0, S1.
+      assert (Q1 : s_dir_start sf <? s_frag_start sf = true) by (apply N.ltb_lt; lia).
+      assert (Q2 : s_frag_start sf <? s_export_start sf = true) by (apply N.ltb_lt; lia).
+      assert (Q3 : s_export_start sf <? s_id_start sf = true) by (apply N.ltb_lt; lia).
+      rewrite Q1, Q2, Q3. exact XT.
+  Qed.
+
+  Lemma v_opts_ok : v_opts uncompress (image_bytes w) sf = true.
+  Proof.
+    destruct dom_facts as (_ & _ & _ & _ & Oo & _). destruct layout as [Li _ _ _ _ _ _ _].
+    unfold v_opts. rewrite flags_eq. unfold flags_of.
+    destruct (final_flags_bits (negb (is_nil (in_opts inp))) (is_nil (in_frags inp))
+                (existsb frag_compressed (in_frags inp)) (is_some (w_export w))
+                (if c_no_xattr cfg then None else Some (is_some (in_xattr inp)))) as (B & _).
+    change FLAG_COMP_OPTS with c_SQFS_FLAG_COMPRESSOR_OPTIONS.
+    assert (OF : in_opts inp = [] \/
+                 (is_nil (in_opts inp) = false /\ 2 <= lenN opts /\ lenN opts < 32768 /\ rd16 opts = lenN opts - 2 + 32768)).
+    { unfold opts. destruct (in_opts inp) as [|o0 orest]; [left; reflexivity|right].
+      unfold opts_okb in Oo. rewrite !andb_true_iff, N.leb_le, N.ltb_lt, N.eqb_eq in Oo. cbn [is_nil]. tauto. }
+    destruct OF as [EO|(EO & O1 & O2 & O3)].
+    - rewrite EO in B |- *. cbn [is_nil negb] in B |- *. apply negb_false_iff in B. rewrite B. reflexivity.
+    - rewrite EO in B |- *. cbn [negb] in B |- *. apply negb_true_iff in B. rewrite B.
+      rewrite bytes_eq. unfold read_block.
+      replace SUPER_SIZE with (lenN (SuperModel.encode sf)) by (rewrite enc_len; reflexivity).
+      rewrite dropN_app_exact by reflexivity.
+      set (rest := data ++ itbl ++ dtbl ++ w_fragb w ++ w_exportb w ++ w_idb w ++ w_xattrb w ++ zeros (w_pad w)).
+      assert (L2 : lenN (opts ++ rest) <? 2 = false) by (apply N.ltb_ge; rewrite lenN_app; lia).
+      rewrite L2. unfold rd16 in O3 |- *. rewrite (rd_app_ge 2 opts rest) by (unfold lenN in O1; lia). rewrite O3.
+      assert (M : (lenN opts - 2 + 32768) mod META_FLAG = lenN opts - 2).
+      { rewrite FLAG_val. replace (lenN opts - 2 + 32768) with (lenN opts - 2 + 1 * 32768) by lia.
+        rewrite N.mod_add by discriminate. apply N.mod_small. lia. }
+      rewrite M. rewrite (dropN_app_le 2 opts rest) by lia.
+      rewrite takeN_app_le by (rewrite lenN_dropN; lia).
+      assert (T : lenN (takeN (lenN opts - 2) (dropN 2 opts)) <? lenN opts - 2 = false).
+      { apply N.ltb_ge. rewrite lenN_takeN, lenN_dropN. lia. }
+      rewrite T.
+      assert (F : META_FLAG <=? lenN opts - 2 + 32768 = true) by (apply N.leb_le; rewrite FLAG_val; lia).
+      rewrite F. cbn [negb andb]. apply N.leb_le. rewrite enc_len. fold opts in Li. unfold SBN in *. lia.
+  Qed.
+
+  Lemma v_meta_ok : v_meta uncompress (image_bytes w) sf = true.
+  Proof.
+    destruct tables_enc as (rawsI & rawsD & FI & EI & _ & FD & ED).
+    unfold v_meta. rewrite dir_end_ok. apply andb_true_iff. split.
+    - apply (area_ok_written compress uncompress compress_ok (image_bytes w) rawsI pre_inode
+               (dtbl ++ w_fragb w ++ w_exportb w ++ w_idb w ++ tail_x)); [exact FI| | |].
+      + rewrite split_inode, EI. reflexivity.
+      + symmetry. exact len_pre_inode.
+      + rewrite len_pre_inode, <- EI. destruct layout as [_ Ld _ _ _ _ _ _]. exact Ld.
+    - apply (area_ok_written compress uncompress compress_ok (image_bytes w) rawsD pre_dir
+               (w_fragb w ++ w_exportb w ++ w_idb w ++ tail_x)); [exact FD| | |].
+      + rewrite split_dir, ED. reflexivity.
+      + symmetry. exact len_pre_dir.
+      + rewrite len_pre_dir, <- ED. reflexivity.
+  Qed.
+
+  Lemma frag_bytes_ne : in_frags inp <> [] -> frag_table_bytes (in_frags inp) <> [].
+  Proof.
+    intro Z. destruct (in_frags inp) as [|f r]; [congruence|]. unfold frag_table_bytes, frag_entry. cbn [flat_map].
+    unfold le64. cbn [le]. discriminate.
+  Qed.
+
+  (* what the xattr section must look like for the chain clause (the section is an abstract input of the model) *)
+  Definition xattr_section_ok : Prop :=
+    w_xattrb w = [] \/ xattr_tail uncompress (image_bytes w) sf (o_xattr w) = true.
+
+  Lemma v_chain_ok : xattr_section_ok -> v_chain uncompress (image_bytes w) sf = true.
+  Proof.
+    intro HX. destruct fit_facts as (_ & Bu). pose proof order_facts as O.
+    destruct layout as [_ _ Fr Ex Id _ U _].
+    unfold v_chain. rewrite dir_end_ok.
+    (* fragment table *)
+    assert (C1 : chain_step uncompress (image_bytes w) (Some (o_frag w)) (s_frag_start sf) (s_frag_count sf) 16
+                 = Some (o_export w)).
+    { unfold chain_step. destruct Fr as [(Z & Fb & S & _)|(Z & A & C)].
+      - rewrite S, no_table_absent. unfold o_export. rewrite Fb, lenN_nil, N.add_0_r. reflexivity.
+      - rewrite (frag_present Z), C, split_frag.
+        rewrite (table_span_written compress uncompress compress_ok _ _ _ _ pre_frag (w_exportb w ++ w_idb w ++ tail_x)
+                   (nlen (in_frags inp)) 16 A len_pre_frag ltac:(rewrite frag_bytes_len; reflexivity) (frag_bytes_ne Z)
+                   ltac:(unfold o_id, o_export in O; lia)).
+        rewrite N.eqb_refl. reflexivity. }
+    rewrite C1.
+    assert (C2 : chain_step uncompress (image_bytes w) (Some (o_export w)) (s_export_start sf) (SuperModel.s_inode_count sf) 8
+                 = Some (o_id w)).
+    { unfold chain_step. destruct export_roundtrip_l as [(_ & Z & _)|(_ & l & Z & _ & L & _)].
+      - destruct Ex as [(_ & Eb & S)|(l & dwr & Z' & _)]; [|congruence].
+        rewrite S, no_table_absent. unfold o_id. rewrite Eb, lenN_nil, N.add_0_r. reflexivity.
+      - destruct Ex as [(Z' & _)|(l' & dwr & Z' & A & _ & X)]; [congruence|].
+        rewrite Z in Z'. injection Z' as <-.
+        destruct fixed_fields as (_ & M2 & _).
+        rewrite (export_present l Z), M2, split_export.
+        assert (Hne : concat (map le64 l) <> []).
+        { pose proof (export_add_some _ _ _ _ X) as Q. destruct l as [|x r]; [congruence|]. cbn [map concat].
+          unfold le64. cbn [le]. discriminate. }
+        rewrite (table_span_written compress uncompress compress_ok _ _ _ _ pre_export (w_idb w ++ tail_x)
+                   (nlen t) 8 A len_pre_export ltac:(rewrite le64_list_len, L; reflexivity) Hne
+                   ltac:(unfold o_id in O; lia)).
+        rewrite N.eqb_refl. reflexivity. }
+    rewrite C2.
+    destruct fixed_fields as (_ & _ & _ & _ & _ & _ & M7 & _). rewrite M7, split_id.
+    destruct ids_facts as (_ & Hne & _).
+    assert (Hn : id_table_bytes (si_ids img) <> []).
+    { destruct (si_ids img) as [|x r]; [congruence|]. unfold id_table_bytes. cbn [flat_map]. unfold le32. cbn [le].
+      discriminate. }
+    rewrite (table_span_written compress uncompress compress_ok _ _ _ _ pre_id tail_x (nlen (si_ids img)) 4 Id
+               len_pre_id ltac:(rewrite id_bytes_len; reflexivity) Hn ltac:(unfold o_xattr in O; lia)).
+    rewrite N.eqb_refl. cbn [andb]. rewrite <- split_id. fold (o_xattr w).
+    destruct HX as [HX|HX]; [|exact HX].
+    unfold xattr_tail.
+    destruct layout as [_ _ _ _ _ [(A & B)|(off & _ & _ & _ & C)] _ _].
+    - rewrite B, no_table_absent. apply N.eqb_eq. rewrite HX, lenN_nil in U. lia.
+    - rewrite HX, lenN_nil in C. lia.
+  Qed.
+
+  Lemma v_tables_ok : v_tables uncompress (image_bytes w) sf = true.
+  Proof.
+    destruct fixed_fields as (_ & _ & _ & _ & _ & _ & M7 & _). destruct ids_facts as (_ & Hne & _).
+    unfold v_tables. rewrite ids_roundtrip_l, frags_roundtrip_l, M7.
+    assert (I1 : 1 <=? nlen (si_ids img) = true).
+    { apply N.leb_le. destruct (si_ids img); [congruence|unfold nlen; cbn [length]; lia]. }
+    rewrite I1. cbn [ValidModel.is_some andb].
+    assert (E : ValidModel.is_some (read_export uncompress (image_bytes w) sf) = true).
+    { destruct export_roundtrip_l as [(_ & _ & ->)|(_ & l & _ & -> & _)]; reflexivity. }
+    rewrite E. cbn [andb].
+    destruct layout as [_ _ [(Z & _ & S & _)|(Z & _ & C)] _ _ _ _ _].
+    - rewrite S, no_table_absent. reflexivity.
+    - rewrite (frag_present Z), C. apply N.leb_le. destruct (in_frags inp); [congruence|unfold nlen; cbn [length]; lia].
+  Qed.
+
+  (* writer_valid, the part about layout and lookup tables *)
+  Theorem valid_layout_l : xattr_section_ok -> valid_layout uncompress devblk (image_bytes w) sf = true.
+  Proof.
+    intro HX. unfold valid_layout.
+    rewrite v_size_ok, v_order_ok, v_opts_ok, v_meta_ok, (v_chain_ok HX), v_tables_ok. reflexivity.
+  Qed.
+
+  (* image_layout_ok: the file section by section, and the super block fields against what was written *)
+  Record ImageLayout : Prop := mkIL {
+    il_bytes : image_bytes w = SuperModel.encode sf ++ opts ++ data ++ itbl ++ dtbl ++ w_fragb w ++ w_exportb w ++
+                               w_idb w ++ w_xattrb w ++ zeros (w_pad w);
+    il_super : lenN (SuperModel.encode sf) = 96;
+    il_inode : s_inode_start sf = 96 + lenN opts + lenN data;
+    il_dir : s_dir_start sf = s_inode_start sf + lenN itbl /\ s_inode_start sf < s_dir_start sf;
+    il_frag : (in_frags inp = [] /\ w_fragb w = [] /\ s_frag_start sf = NO_TABLE) \/
+              (in_frags inp <> [] /\ o_frag w + 2 <= s_frag_start sf /\
+               s_frag_start sf + 8 * table_blocks (nlen (in_frags inp)) 16 = o_export w);
+    il_export : (c_exportable cfg = false /\ w_exportb w = [] /\ s_export_start sf = NO_TABLE) \/
+                (c_exportable cfg = true /\ o_export w + 2 <= s_export_start sf /\
+                 s_export_start sf + 8 * table_blocks (nlen t) 8 = o_id w);
+    il_id : o_id w + 2 <= s_id_start sf /\ s_id_start sf + 8 * table_blocks (nlen (si_ids img)) 4 = o_xattr w;
+    il_xattr : (w_xattrb w = [] /\ s_xattr_start sf = NO_TABLE) \/
+               (exists off, in_xattr inp = Some (w_xattrb w, off) /\ s_xattr_start sf = o_xattr w + off);
+    il_used : s_bytes_used sf = o_xattr w + lenN (w_xattrb w) /\ s_bytes_used sf = 96 + lenN (w_body w);
+    il_pad : lenN (image_bytes w) = s_bytes_used sf + w_pad w /\ w_pad w < devblk /\
+             lenN (image_bytes w) mod devblk = 0;
+    il_counts : SuperModel.s_inode_count sf = nlen t /\ SuperModel.s_id_count sf = nlen (si_ids img) /\
+                s_frag_count sf = nlen (in_frags inp) /\ SuperModel.s_root_ref sf = si_root img /\
+                SuperModel.s_block_size sf = bs /\ SuperModel.s_block_log sf = N.log2 bs /\ bs = 2 ^ N.log2 bs /\
+                SuperModel.s_magic sf = c_SQFS_MAGIC /\ SuperModel.s_comp_id sf = c_comp_id cfg;
+    il_flags : s_flags sf = flags_of cfg inp w
+  }.
+
+  Theorem image_layout_l : ImageLayout.
+  Proof.
+    pose proof order_facts as O. destruct layout as [Li Ld Fr Ex Id Xa U [D P]].
+    destruct fixed_fields as (M1 & M2 & M3 & M4 & M5 & M6 & M7 & M8 & M9 & M10).
+    destruct s0_facts as (_ & P2 & _). pose proof itbl_nonempty as I2.
+    constructor.
+    - exact bytes_eq.
+    - rewrite enc_len. reflexivity.
+    - exact Li.
+    - fold itbl in Ld. split; [exact Ld|lia].
+    - destruct Fr as [(Z & Fb & S & _)|(Z & A & C)]; [left; auto|right].
+      destruct frag_span as [_ F]. destruct (F Z) as [F1 F2]. rewrite C in F2. split; [exact Z|]. split; [exact F1|lia].
+    - destruct export_roundtrip_l as [(CE & Z & _)|(CE & l & Z & _ & L & _)].
+      + left. destruct Ex as [(_ & Eb & S)|(l & dwr & Z' & _)]; [auto|congruence].
+      + right. destruct export_span as [_ E]. destruct (E l Z) as [E1 E2]. rewrite L in E2.
+        split; [exact CE|]. split; [exact E1|lia].
+    - destruct id_span as [I1 I3]. split; [exact I1|lia].
+    - destruct Xa as [(A & B)|(off & _ & A & B & _)]; [left; auto|right; exists off; auto].
+    - split; [exact U|].
+      destruct shape as (dwr & f1 & f2 & _ & _ & _ & _ & _ & _ & _ & _ & _ & _ & _ & B & _).
+      rewrite B, !lenN_app. fold img opts data itbl dtbl. unfold o_xattr, o_id, o_export, o_frag in U.
+      fold sf img in U. rewrite Ld, Li in U. fold dtbl in U. unfold SBN in U. change sizeof_sqfs_super_t with 96 in U. lia.
+    - split; [exact image_len|]. rewrite image_len, P.
+      destruct (pad_len_ok (s_bytes_used sf) (c_devblk cfg) ltac:(lia)) as [A B]. rewrite Hdev. split; assumption.
+    - repeat split; try assumption.
+      destruct Fr as [(Z & _ & _ & C)|(_ & _ & C)]; [rewrite C, Z; reflexivity|exact C].
+    - exact flags_eq.
+  Qed.
+
+  (* what is proved of valid_image on a written image: the super block clause and the six layout / lookup table
+     clauses hold; the verdict is that of the three inode / directory clauses *)
+  Theorem writer_valid_partial_l : xattr_section_ok ->
+    read_super (image_bytes w) = Some sf /\
+    valid_layout uncompress devblk (image_bytes w) sf = true /\
+    valid_image uncompress devblk (image_bytes w) = valid_tree uncompress (image_bytes w) sf.
+  Proof.
+    intro HX. split; [exact super_roundtrip_l|]. split; [exact (valid_layout_l HX)|].
+    unfold valid_image, valid_super. rewrite super_roundtrip_l, (valid_layout_l HX). reflexivity.
   Qed.
 End IP.
